@@ -256,6 +256,7 @@ fn strip_pre(out: &[u8]) -> Result<Vec<u8>, String> {
 thread_local! {
     /// a stream iterator can yield at most one match per byte (set from the stream length before each run)
     pub static STREAM_ITEM_CAP: std::cell::Cell<usize> = std::cell::Cell::new(usize::MAX);
+    pub static STREAM_RESUME: std::cell::Cell<bool> = std::cell::Cell::new(false);
 }
 
 /// a non-overlapping iterator yields at most one match per position of the span (+1 for the end); anything beyond that
@@ -403,7 +404,10 @@ impl<A: Automaton> Srch for Low<A> {
                 Ok(m) => out.push(Ok(m)),
                 Err(_) => {
                     out.push(Err(()));
-                    break;
+                    // `resume=1`: the caller keeps pulling after the error item (a transient fault)
+                    if !STREAM_RESUME.with(|c| c.get()) {
+                        break;
+                    }
                 }
             }
         }
@@ -505,7 +509,10 @@ impl Srch for AhoCorasick {
                 Ok(m) => out.push(Ok(m)),
                 Err(_) => {
                     out.push(Err(()));
-                    break;
+                    // `resume=1`: the caller keeps pulling after the error item (a transient fault)
+                    if !STREAM_RESUME.with(|c| c.get()) {
+                        break;
+                    }
                 }
             }
         }
@@ -745,6 +752,7 @@ pub fn run_op(r: &Req, b: &Built) -> Result<String, String> {
             let repl = if op == "stream" { vec![] } else { r.list("repl")? };
             aho_corasick::verif::set_stream_spare(spare);
             STREAM_ITEM_CAP.with(|c| c.set(data.len() + 3));
+            STREAM_RESUME.with(|c| c.set(op == "stream" && r.kv.get("resume").map(|x| x == "1").unwrap_or(false)));
             let mut rdr = SchedReader {
                 data,
                 pos: 0,
@@ -1290,6 +1298,7 @@ pub fn gate(r: &Req, b: &Built) -> Result<String, String> {
 pub fn run(r: &Req) -> Vec<(String, String)> {
     // (per-request state of the harness itself must never leak into the next request)
     STREAM_ITEM_CAP.with(|c| c.set(usize::MAX));
+    STREAM_RESUME.with(|c| c.set(false));
     // `topfind` / `topiter` / `topismatch` / `topovl`: the same real methods, compared with the capstone model
     let stripped;
     let r = if matches!(
